@@ -26,8 +26,8 @@ pub fn prop() -> Prop {
         id: "C02",
         level: "exploration",
         runs: |t| match t {
-            Tier::Quick => 780,
-            Tier::Thorough => 9000,
+            Tier::Quick => 2000,
+            Tier::Thorough => 16000,
         },
         generate,
         exec,
